@@ -29,8 +29,16 @@ for sid in seeds:
         print(sid, 'PATCH DOES NOT APPLY')
         continue
     caught = {}
+    mp = os.path.join(dst, 'meta.json')
+    stamp = subprocess.run(['git', '-C', HERE, 'rev-parse', 'HEAD'], stdout=subprocess.PIPE).stdout.decode().strip()[:10] + '/' + \
+        subprocess.run(['git', '-C', '/repo', 'rev-parse', 'HEAD'], stdout=subprocess.PIPE).stdout.decode().strip()[:10]
+    if os.path.exists(mp) and json.load(open(mp)).get('recorded_at') == stamp and not sel:
+        print(sid, 'already recorded at', stamp)
+        continue
     subprocess.check_call(['git', '-C', '/repo', 'apply', patch])
     try:
+        subprocess.run([sys.executable, os.path.join(HERE, 'devtools', 'warm.py')], stdout=subprocess.DEVNULL, stderr=subprocess.DEVNULL,
+                       env=dict(os.environ, M4LINT_SCRATCH_EVIDENCE='1'))
         with ThreadPoolExecutor(max_workers=8) as ex:
             for pid, rc, out in ex.map(run_check, claimed):
                 rules = sorted(set(l.split(': rule ')[1].split(':')[0] for l in out.splitlines() if ': rule ' in l and 'configs=' not in l))
@@ -41,8 +49,8 @@ for sid in seeds:
                     caught[pid] = ['ANALYSIS-BROKEN: ' + (first[0] if first else '')[:200]]
     finally:
         subprocess.check_call(['git', '-C', '/repo', 'checkout', '--', '.'])
-    mp = os.path.join(dst, 'meta.json')
     meta = json.load(open(mp)) if os.path.exists(mp) else dict(id=sid, breaks_property=sid.split('-')[0])
+    meta['recorded_at'] = stamp
     meta['checks_run'] = 'every registered quick check of /verif against /repo with patch.diff applied (git -C /repo apply; undone with git -C /repo checkout -- . straight afterwards)'
     meta['reported_by'] = caught
     meta['detected'] = bool([k for k, v in caught.items() if not (v and v[0].startswith('ANALYSIS-BROKEN'))])
